@@ -1,1 +1,1 @@
-import Properties.T0
+import Properties.C14
